@@ -1,15 +1,26 @@
 #!/bin/bash
 # usage: confirm_seeded.sh <id> <patch.diff> <demo-src-file> <demo-dest-relative-to-repo> <go test package> [-run regex]
-# confirms in a scratch worktree: builds + full suite passes with the change; demo fails with, passes without
+# confirms in a scratch worktree of /repo (removed afterwards):
+#   1. the demonstration passes WITHOUT the change
+#   2. the tree builds and the full existing suite passes WITH the change (demonstration file absent)
+#   3. the demonstration fails WITH the change
+# prints CONFIRMED or NOT-CONFIRMED
 id=$1; patch=$2; demo=$3; dest=$4; pkg=$5; run=${6:-.}
-export GOFLAGS=-mod=mod GOPROXY=off GOSUMDB=off
+export GOFLAGS=-mod=mod GOPROXY=off GOSUMDB=off GOTOOLCHAIN=local PATH=/root/go/pkg/mod/golang.org/toolchain@v0.0.1-go1.23.8.linux-amd64/bin:$PATH
 wt=/tmp/cf-$id
 git -C /repo worktree remove --force $wt 2>/dev/null
 git -C /repo worktree add -q --detach $wt HEAD || exit 2
 cd $wt
+ok=1
 cp "$demo" "$dest"
-echo "== demo WITHOUT the change"; go test -count=1 -run "$run" $pkg 2>&1 | tail -3
-git apply "$patch" || { echo "patch does not apply"; exit 2; }
-echo "== build + suite WITH the change"; go build ./... && go test -vet=off -count=1 ./... 2>&1 | grep -v "^ok\|no test files" | tail -5; echo "suite done"
-echo "== demo WITH the change"; go test -count=1 -run "$run" $pkg 2>&1 | tail -4
-cd /; git -C /repo worktree remove --force $wt
+echo "== demo WITHOUT the change"; go test -vet=off -count=1 -run "$run" $pkg > /tmp/cf-$id.1 2>&1; r1=$?; tail -3 /tmp/cf-$id.1
+[ $r1 -eq 0 ] || ok=0
+git apply "$patch" || { echo "patch does not apply"; ok=0; }
+rm -f "$dest"
+echo "== build + suite WITH the change (demo absent)"; go build ./... && go test -vet=off -count=1 ./... > /tmp/cf-$id.2 2>&1; r2=$?; grep -v "^ok\|no test files" /tmp/cf-$id.2 | tail -5; echo "suite exit $r2"
+[ $r2 -eq 0 ] || ok=0
+cp "$demo" "$dest"
+echo "== demo WITH the change"; go test -vet=off -count=1 -run "$run" $pkg > /tmp/cf-$id.3 2>&1; r3=$?; grep -v "^ok" /tmp/cf-$id.3 | tail -4
+[ $r3 -ne 0 ] || ok=0
+cd /; git -C /repo worktree remove --force $wt; rm -f /tmp/cf-$id.[123]
+if [ $ok -eq 1 ]; then echo "CONFIRMED $id"; else echo "NOT-CONFIRMED $id (demo-without=$r1 suite-with=$r2 demo-with=$r3)"; fi
